@@ -1,5 +1,5 @@
 (* Codec/Props_codec.v — property theorems of the codec area (statement + `exact lemma` only). *)
-From FlacCodec Require Import Parser_proofs Wf Roundtrip_sub Roundtrip_hdr Roundtrip_frame Totality Progress Stream.
+From FlacCodec Require Import Parser_proofs Wf Spec Roundtrip_sub Roundtrip_hdr Roundtrip_frame Agree_frame Totality Progress Stream.
 From FlacBase Require Import Crc.
 Open Scope N_scope.
 
@@ -8,6 +8,40 @@ Open Scope N_scope.
 Theorem C17_parse_inverts_write : forall si f bytes rest,
   wf_frame si f = true -> write_frame f = Some bytes -> struct_frame si (bytes ++ rest) = Ok (f, rest).
 Proof. exact frame_roundtrip. Qed.
+
+(* C03 / C01 core (Release arithmetic): for EVERY well-formed, RFC-valid syntax tree — every syntactic
+   alternative of the frame grammar, chosen independently — the streaming decoder (decode.rs) applied
+   to the serialised frame returns exactly the samples the format defines, and leaves exactly the
+   bytes that follow the frame. *)
+Theorem C03_decoder_follows_format : forall si chk f bytes rest,
+  wf_frame si f = true -> spec_frame f = true -> write_frame f = Some bytes ->
+  chk (f_hdr f) = Ok tt ->
+  dec_frame Release si chk (bytes ++ rest) = Ok (f_hdr f, sem_frame f, rest).
+Proof. exact dec_frame_agree. Qed.
+
+(* C02 core: the strict reference decoder accepts every such frame with the same samples *)
+Lemma spec_decode_write si f bytes rest :
+  wf_frame si f = true -> spec_frame f = true -> write_frame f = Some bytes ->
+  spec_decode si (bytes ++ rest) = Ok (sem_frame f, rest).
+Proof.
+  intros Hwf Hsp Hw. unfold spec_decode. rewrite (frame_roundtrip si f bytes rest Hwf Hw). cbn [bind].
+  rewrite Hwf, Hsp. reflexivity.
+Qed.
+Theorem C02_reference_decoder_accepts : forall si f bytes rest,
+  wf_frame si f = true -> spec_frame f = true -> write_frame f = Some bytes ->
+  spec_decode si (bytes ++ rest) = Ok (sem_frame f, rest).
+Proof. exact spec_decode_write. Qed.
+
+(* C01 core: the crate's decoder and the reference decoder agree on every valid frame *)
+Theorem C01_decoders_agree : forall si f bytes rest,
+  wf_frame si f = true -> spec_frame f = true -> write_frame f = Some bytes ->
+  exists h, dec_frame Release si (fun _ => Ok tt) (bytes ++ rest) = Ok (h, sem_frame f, rest) /\
+            spec_decode si (bytes ++ rest) = Ok (sem_frame f, rest).
+Proof.
+  intros si f bytes rest Hwf Hsp Hw. exists (f_hdr f). split.
+  - apply dec_frame_agree; auto.
+  - apply spec_decode_write; auto.
+Qed.
 
 (* C04 (Release profile): no byte string makes the frame decoder panic ... *)
 Theorem C04_frame_total_release : forall si chk bytes,
@@ -28,6 +62,8 @@ Definition ex_hdr : header := {| h_variable := false; h_bs_code := 6; h_bs := 4;
 Definition ex_frame : frame := {| f_hdr := ex_hdr; f_subs :=
   [{| sf_wasted := 0; sf_body := BFixed 1 [-6%Z] {| r_method := 0; r_parts := [PRice 2 [3; 5; 5]%Z] |} |}] |}.
 Example ex_frame_wf : wf_frame None ex_frame = true.
+Proof. vm_compute. reflexivity. Qed.
+Example ex_frame_spec : spec_frame ex_frame = true.
 Proof. vm_compute. reflexivity. Qed.
 Example ex_frame_roundtrip :
   match write_frame ex_frame with
